@@ -99,7 +99,7 @@ def search(ctx: Ctx) -> Result:
 
 SPEC = PropSpec(
     prop='C01',
-    translators=['patternrules', 'runwalk'],
+    translators=['patternrules', 'runwalk', 'deciderfrag'],
     run=run,
     search=search,
     rule='bounded-exhaustive: every legal (strict,loop,negated,optional) vector for patterns of 1..3 blocks (4 in thorough) with a family of '
